@@ -1,3 +1,128 @@
-use serde_json::{json, Value as J};
-pub fn run_parse(_req: &J) -> J { json!({"error":"todo"}) }
-pub fn run_format(_req: &J) -> J { json!({"error":"todo"}) }
+// Parser / formatter modes.
+//
+//  parse : text -> outcome (tree | report | panic), element shape, erased serde tree (optional),
+//          report ranges (optional) and whether TextFormatter::format_error survived.
+//  format: text -> tree1 -> text2 (Formatter) -> tree2 -> text3; returns erased trees and texts.
+use crate::session::program_shape;
+use mech_core::*;
+use mech_syntax::formatter::Formatter;
+use mech_syntax::parser;
+use mech_syntax::{ParserErrorReport, TextFormatter};
+use serde_json::{json, Map, Value as J};
+use std::panic::{catch_unwind, AssertUnwindSafe};
+
+/// Erase source positions and compress tokens to their text.
+pub fn erase(v: &J) -> J {
+  match v {
+    J::Object(m) => {
+      // Token {kind, chars, src_range}
+      if m.len() == 3 && m.contains_key("kind") && m.contains_key("chars") && m.contains_key("src_range") {
+        let s: String = m
+          .get("chars")
+          .and_then(|c| c.as_array())
+          .map(|a| a.iter().filter_map(|c| c.as_str()).collect::<Vec<_>>().join(""))
+          .unwrap_or_default();
+        return json!({"T": s});
+      }
+      let mut out = Map::new();
+      for (k, val) in m.iter() {
+        if k == "src_range" {
+          continue;
+        }
+        out.insert(k.clone(), erase(val));
+      }
+      J::Object(out)
+    }
+    J::Array(a) => J::Array(a.iter().map(erase).collect()),
+    other => other.clone(),
+  }
+}
+
+fn rng(r: &SourceRange) -> J {
+  json!([r.start.row, r.start.col, r.end.row, r.end.col])
+}
+
+pub fn parse_outcome(text: &str, want_tree: bool) -> (J, Option<Program>) {
+  let r = catch_unwind(AssertUnwindSafe(|| parser::parse(text)));
+  match r {
+    Ok(Ok(tree)) => {
+      let mut o = json!({"outcome":"tree","shape":program_shape(&tree)});
+      if want_tree {
+        o["tree"] = erase(&serde_json::to_value(&tree).unwrap_or(J::Null));
+      }
+      (o, Some(tree))
+    }
+    Ok(Err(e)) => {
+      let mut o = json!({"outcome":"report","class":e.kind_name()});
+      if let Some(rep) = e.kind_as::<ParserErrorReport>() {
+        let mut ranges = vec![];
+        for c in rep.1.iter() {
+          ranges.push(rng(&c.cause_rng));
+          for a in c.annotation_rngs.iter() {
+            ranges.push(rng(a));
+          }
+        }
+        o["n"] = json!(rep.1.len());
+        o["ranges"] = json!(ranges);
+        o["src_eq"] = json!(rep.0 == text);
+        // the formatter indexes the source by the reported ranges: it must not panic
+        let fe = catch_unwind(AssertUnwindSafe(|| TextFormatter::new(text).format_error(rep)));
+        o["fmt_ok"] = json!(fe.is_ok());
+        if let Ok(s) = fe {
+          o["fmt_len"] = json!(s.len());
+        }
+      }
+      (o, None)
+    }
+    Err(_) => (json!({"outcome":"panic"}), None),
+  }
+}
+
+pub fn run_parse(req: &J) -> J {
+  let text = req.get("text").and_then(|t| t.as_str()).unwrap_or("");
+  let want_tree = req.get("tree").and_then(|b| b.as_bool()).unwrap_or(false);
+  #[cfg(mech_verif)]
+  {
+    mech_syntax::verif_hooks::reset();
+  }
+  let (mut o, _) = parse_outcome(text, want_tree);
+  #[cfg(mech_verif)]
+  {
+    if req.get("events").and_then(|b| b.as_bool()).unwrap_or(false) {
+      let ev = mech_syntax::verif_hooks::take();
+      o["events"] = json!(ev.iter().map(|(s, i, c, l)| json!([s, i, c, l])).collect::<Vec<_>>());
+    }
+  }
+  // graphemes as the parser sees the source (init_source appends a newline)
+  o["nlines"] = json!(text.split('\n').count());
+  o
+}
+
+pub fn run_format(req: &J) -> J {
+  let text = req.get("text").and_then(|t| t.as_str()).unwrap_or("");
+  let (o1, t1) = parse_outcome(text, true);
+  let mut out = json!({"p1": o1});
+  let t1 = match t1 {
+    Some(t) => t,
+    None => return out,
+  };
+  let f1 = catch_unwind(AssertUnwindSafe(|| Formatter::new().format(&t1)));
+  let text2 = match f1 {
+    Ok(s) => s,
+    Err(_) => {
+      out["f1"] = json!("panic");
+      return out;
+    }
+  };
+  out["text2"] = json!(text2);
+  let (o2, t2) = parse_outcome(&text2, true);
+  out["p2"] = o2;
+  if let Some(t2) = t2 {
+    let f2 = catch_unwind(AssertUnwindSafe(|| Formatter::new().format(&t2)));
+    match f2 {
+      Ok(s) => out["text3"] = json!(s),
+      Err(_) => out["f2"] = json!("panic"),
+    }
+  }
+  out
+}
